@@ -15,7 +15,10 @@ RULE = ("Gfa states from generated valid documents (<= 15 lines, asymmetric CIGA
         "lists, namespace lists) must be unchanged, arguments included; the same call repeated must return an "
         "equal normalised result. non-trivial = the sequence has >= 3 distinct call kinds and >= 1 call on an "
         "alignment or link whose CIGAR has an I or D, or >= 1 successful resolution of a group (captured path / "
-        "induced set); distinct by hash")
+        "induced set). Part 'purity-queue': a Gfa of unknown version holding 1-5 lines that do not decide the version "
+        "(L, C, P, custom records, comments) in its queue, 2-10 Gfa-level queries: (version, queue) unchanged after every "
+        "call, repeated call equal, and the deciding lines added afterwards give the same document as without the "
+        "queries; distinct by hash")
 ASSUMPTIONS = [
     "conversions (to_gfa1/to_gfa2) are not in the statement (they assign ID tags by design) and are excluded",
     "the fingerprint is taken after one warm-up read of every field: at vlevel 0 the first access decodes lazily parsed fields and may re-spell them, which the property names as intended; at vlevel 0 texts are compared through the canonicaliser, at vlevel >= 1 literally",
@@ -291,7 +294,86 @@ def st_group_case(draw):
     return {"doc": {"version": "gfa2", "lines": lines}, "vlevel": r.randrange(4), "calls": calls}
 
 
+QUEUE_CALLS = {
+    "str": lambda g: str(g), "lines": lambda g: g.lines, "names": lambda g: g.names, "segment_names": lambda g: g.segment_names,
+    "segments": lambda g: g.segments, "dovetails": lambda g: g.dovetails, "containments": lambda g: g.containments,
+    "edges": lambda g: g.edges, "paths": lambda g: g.paths, "comments": lambda g: g.comments, "headers": lambda g: g.headers,
+    "header": lambda g: str(g.header), "validate": lambda g: g.validate(),
+    "n_dovetails": lambda g: g.n_dovetails, "connected_components": lambda g: g.connected_components(),
+    "linear_paths": lambda g: g.linear_paths(), "line": lambda g: g.line("A"), "segment": lambda g: g.segment("A"),
+    "try_get": lambda g: g.try_get_line("A"), "custom_records": lambda g: g.custom_records,
+    "custom_record_keys": lambda g: g.custom_record_keys, "fragments": lambda g: g.fragments, "version": lambda g: g.version,
+    "eq": lambda g: g == g, "sets": lambda g: g.sets, "gaps": lambda g: g.gaps, "external_names": lambda g: g.external_names,
+}
+QUEUE_LINES = ["# c", "#", "L\tA\t+\tB\t-\t*", "L\tB\t+\tA\t+\t3M\tID:Z:l1", "C\tA\t+\tB\t+\t0\t*", "P\tp\tA+,B-\t*",
+               "X\tcustom\txx:i:1", "Y\ta", "1\t2\t3"]
+DECIDING = {"gfa1": ["S\tA\tACGT", "S\tB\t*\tLN:i:9"], "gfa2": ["S\tA\t4\tACGT", "S\tB\t9\t*"]}
+
+
+def _queue_state(g):
+    return (g.version, [str(x) for x in g._line_queue])
+
+
+def prop_queue(case):
+    """A Gfa whose version is not known yet keeps the lines that do not decide it in a queue:
+    no read-only call may process the queue or fix the version, and what follows (lines that
+    decide the version) must end in the same document as without those calls."""
+    lines, vlevel, then = case["lines"], case["vlevel"], case["then"]
+
+    def build():
+        g_ = gfapy.Gfa(vlevel=vlevel)
+        for l in lines:
+            g_.add_line(l)
+        return g_
+    try:
+        g, control = build(), build()
+    except Exception as e:
+        raise Violation("load", "queued lines not accepted: %s: %s %r" % (type(e).__name__, str(e)[:200], lines), type(e).__name__)
+    s0 = _queue_state(g)
+    for step, name in enumerate(case["calls"]):
+        res = []
+        for _rep in range(2):
+            try:
+                res.append(repr(norm(QUEUE_CALLS[name](g))))
+            except Exception as e:
+                res.append("raised " + type(e).__name__)
+            s = _queue_state(g)
+            if s != s0:
+                raise Violation("impure", "call %d %s on a Gfa of unknown version with queued lines %r changed (version, queue) %r -> %r" % (
+                    step, name, lines, s0, s), "queue/" + name)
+        if res[0] != res[1]:
+            raise Violation("unrepeatable", "call %s gave %s then %s (queued lines %r)" % (name, res[0][:300], res[1][:300], lines), "queue/" + name)
+    outs = []
+    for x in (g, control):
+        try:
+            for l in then:
+                x.add_line(l)
+            outs.append((x.version, str(x)))
+        except GfapyError as e:
+            outs.append("raised " + type(e).__name__)
+        except Exception as e:
+            outs.append("raised! " + type(e).__name__)
+    if outs[0] != outs[1]:
+        raise Violation("later-answer", "after the read-only calls %s the lines %r lead to %r, without the calls to %r (queued: %r)" % (
+            case["calls"], then, outs[0], outs[1], lines), "queue")
+    return {"nt": bool(s0[1]) and len(set(case["calls"])) >= 3, "queued": min(len(s0[1]), 4)}
+
+
+@st.composite
+def st_queue_case(draw):
+    r = draw(st.randoms(use_true_random=False))
+    lines = [gen.choice(r, QUEUE_LINES) for _ in range(r.randint(1, 5))]
+    seen = set()
+    lines = [l for l in lines if not (l in seen or seen.add(l)) or l.startswith("#")]
+    calls = [gen.choice(r, sorted(QUEUE_CALLS)) for _ in range(r.randint(2, 10))]
+    gfa2_ok = all(l[0] in "#XY1" for l in lines)
+    v = gen.choice(r, ["gfa1", "gfa2"]) if gfa2_ok else "gfa1"
+    return {"lines": lines, "vlevel": r.randrange(4), "calls": calls, "then": list(DECIDING[v])}
+
+
 def parts(tier):
     q = tier == "quick"
     return [Part("purity", prop, strategy=st_case(), n=200 if q else 1500, quick_shards=4),
-            Part("purity-groups", prop, strategy=st_group_case(), n=150 if q else 1000, quick_shards=2)]
+            Part("purity-groups", prop, strategy=st_group_case(), n=150 if q else 1000, quick_shards=2),
+            Part("purity-queue", prop_queue, strategy=st_queue_case(), n=300 if q else 2000,
+                 note="Gfa of unknown version with queued lines; Gfa-level queries only")]
